@@ -49,7 +49,7 @@ def run(prop, tier, seed, repo, jobs):
         for kinds in combos:
             if watch and tier == 'quick' and prop == 'C11' and 'service' not in kinds:
                 continue     # single-instance obligation is about services
-            cases.append((prop, kinds, watch, K, qcap, seed, True, 300 if tier == 'quick' else 2400, repo, tier))
+            cases.append((prop, kinds, watch, K, qcap, seed, True, 300 if tier == 'quick' else (600 if n >= 3 else 1200), repo, tier))
     L = 10 if tier == 'quick' else 14
     locals_ = [(prop, kind, watch, L, repo) for (kind, watch) in proto.LOCAL_PLAN.get(prop, [])]
     with Pool(min(jobs, len(cases) + len(locals_))) as pool:
@@ -59,6 +59,7 @@ def run(prop, tier, seed, repo, jobs):
         lresults = r2.get()
     violations, inconclusive, known_lines = [], [], []
     reported_known, known_instances = {}, []
+    undecided = []
     nq = nunsat = 0
     solver_s = 0.0
     samples = []
@@ -83,6 +84,10 @@ def run(prop, tier, seed, repo, jobs):
                     samples.append({'case': tag, 'obligation': q['name'], 'verdict': 'unsat', 'solver_s': q['solver_s'], 'K': res['K']})
                 continue
             if q['verdict'] != 'sat':
+                if len(res['kinds']) >= 3:
+                    # the larger bound is an attempt: a timeout there leaves that obligation undecided (recorded), the claim stays at n = 2
+                    undecided.append({'case': tag, 'obligation': q['name'], 'verdict': q['verdict'], 'solver_s': q['solver_s']})
+                    continue
                 inconclusive.append('%s: %s: solver returned %s' % (tag, q['name'], q['verdict']))
                 continue
             if q['name'] in ('bound_sufficient', 'inbox_bound_sufficient'):
@@ -295,7 +300,7 @@ def run(prop, tier, seed, repo, jobs):
         'bounds': [{'n_targets': n, 'watch': w, 'K_steps': K, 'inbox_capacity_model': q, 'max_notifications': 2 if w else 0} for (n, w, K, q) in plan(prop, tier)],
         'outside_claim': ['graphs with more targets than the bound', 'schedules longer than K (K is checked sufficient for quiescence where stated)',
                           'blocking on full channels (capacity 64 is never reached within the bound; see DESIGN F2)', 'real OS scheduling / process groups'],
-        'exhaustive': False, 'known_finding_instances': known_instances,
+        'exhaustive': False, 'known_finding_instances': known_instances, 'undecided_at_n3': undecided,
         'case_wall_s': {('%s%s' % ('/'.join(r['kinds']), ' watch' if r['watch'] else '')): [r.get('wall_s'), r.get('summary_s'), r.get('unroll_s'), (r.get('witness') or {}).get('solver_s')] for r in results},
     }
     common.write_evidence(prop, tier, seed, 'model_checking', coverage, ASSUMPTIONS, wall, len(violations))
